@@ -28,3 +28,13 @@ package utils
 //@   requires reader != nil
 //@   modifies reader.pos, reader.avail, reader.failed, mem
 //@   allocates
+
+// NormalizeHeaderKey rewrites letter case in place: only bytes of b change, and only their case.
+//@ func NormalizeHeaderKey(b, disableNormalizing)
+//@   props C02, C03
+//@   modifies bytes(b)
+//@   top-ensures forall(k, 0, len(b), asciiLower(b[k]) == asciiLower(old(b[k])))
+//@   loop 0:
+//@     invariant 1 <= i && n == len(b) && n >= 1
+//@     invariant changedOnly(arr(b), off(b), off(b) + len(b))
+//@     invariant forall(k, 0, len(b), asciiLower(b[k]) == asciiLower(old(b[k])))
